@@ -3,7 +3,7 @@ import itertools
 import os
 
 from . import eng_exec
-from .common import WORK, Stats, Violation, pmap, shim, finish
+from .common import WORK, Stats, Violation, pmap, shim, finish, collect
 
 B = 3000
 
@@ -227,8 +227,7 @@ def run_c02(tier):
             tasks.append(('curated:' + name, [text], c))
     order = {'budget': 0, 'mixed': 1, 'curated': 2}
     tasks.sort(key=lambda t: order.get(t[0].split(':')[0], 5))
-    for r in pmap(programs_task, tasks):
-        st.merge(r)
+    collect(st, pmap(programs_task, tasks))
     cov = {
         'states': st.n.get('programs', 0),
         'transitions': st.n.get('runs', 0),
